@@ -54,7 +54,7 @@ type rogueServer struct {
 }
 
 func newRogue(mint func(req *types.GenerateServerCertificatesRequest) (*tls.Certificate, error)) *rogueServer {
-	ln, err := net.Listen("tcp", "127.0.0.1:0")
+	ln, err := net.Listen("tcp", vkit.LoopbackIP()+":0")
 	if err != nil {
 		panic(err)
 	}
